@@ -6,7 +6,7 @@ from typing import Any, Dict, List, Optional, Sequence, Set, Tuple
 
 from ..engine.effects import collect_mutations
 from ..engine.match import Spec, find_guard, loop_doms, require_call, require_guard, residual
-from ..engine.repo import AnalysisError, FuncInfo, Repo, func_body
+from ..engine.repo import AnalysisError, FuncInfo, Repo, dotted, func_body
 from ..engine.report import Check
 from ..engine.terms import C, Term, conjuncts, implies, mk_and, show
 from ..engine.walker import Event, Summary, swallowed_by
@@ -257,6 +257,178 @@ def _is_counter(m: Any) -> bool:
         return False
     atoms, _k = lin_parts(ev.value)
     return set(atoms) == {ev.term} and atoms[ev.term] == 1
+
+
+ONE_SHOT_BUILTINS = {"zip", "map", "filter", "iter", "reversed", "enumerate"}
+
+
+def one_shot_reuse(fn: ast.AST, generator_names: Set[str]) -> List[Tuple[str, int, str]]:
+    """(name, line, why) for every local name bound to a one-shot iterator (generator expression, zip / map / filter / iter / reversed /
+    enumerate, a call of a generator function) that can be consumed more than once: two uses not in opposite branches of one `if`, or
+    a use inside a loop that the binding is outside of. The second consumer sees an exhausted iterator (an empty sum, a loop that
+    does not run)."""
+    parents: Dict[int, ast.AST] = {}
+    for n in ast.walk(fn):
+        for c in ast.iter_child_nodes(n):
+            parents[id(c)] = n
+
+    def own(n: ast.AST) -> bool:
+        p_ = parents.get(id(n))
+        while p_ is not None and p_ is not fn:
+            if isinstance(p_, (ast.FunctionDef, ast.AsyncFunctionDef, ast.Lambda, ast.ClassDef)):
+                return False
+            p_ = parents.get(id(p_))
+        return True
+
+    def one_shot(v: ast.AST) -> bool:
+        if isinstance(v, ast.GeneratorExp):
+            return True
+        if isinstance(v, ast.Call):
+            d = dotted(v.func) or ""
+            return d in ONE_SHOT_BUILTINS or d.split(".")[-1] in generator_names
+        return False
+
+    binds: Dict[str, List[ast.AST]] = {}
+    for n in ast.walk(fn):
+        if not own(n):
+            continue
+        if isinstance(n, ast.Assign) and len(n.targets) == 1 and isinstance(n.targets[0], ast.Name):
+            binds.setdefault(n.targets[0].id, []).append(n)
+        elif isinstance(n, ast.AnnAssign) and isinstance(n.target, ast.Name) and n.value is not None:
+            binds.setdefault(n.target.id, []).append(n)
+        elif isinstance(n, (ast.AugAssign, ast.For, ast.With, ast.NamedExpr)):
+            for nm in [x.id for x in ast.walk(n.target if hasattr(n, "target") else n) if isinstance(x, ast.Name) and isinstance(x.ctx, ast.Store)]:
+                binds.setdefault(nm, []).append(n)
+    out: List[Tuple[str, int, str]] = []
+    for nm, bs in binds.items():
+        if len(bs) != 1 or not isinstance(bs[0], (ast.Assign, ast.AnnAssign)) or not one_shot(bs[0].value):     # type: ignore[attr-defined]
+            continue
+        b = bs[0]
+        uses = sorted([n for n in ast.walk(fn) if isinstance(n, ast.Name) and n.id == nm and isinstance(n.ctx, ast.Load) and own(n)],
+                      key=lambda n: (n.lineno, n.col_offset))
+
+        def chain(n: ast.AST) -> List[ast.AST]:
+            c_ = []
+            while n is not None and n is not fn:
+                c_.append(n)
+                n = parents.get(id(n))     # type: ignore[assignment]
+            return c_
+        bchain = {id(x) for x in chain(b)}
+        for u in uses:
+            loops = [x for x in chain(u) if isinstance(x, (ast.For, ast.While, ast.ListComp, ast.SetComp, ast.DictComp, ast.GeneratorExp)) and id(x) not in bchain]
+            # being the iterable of a loop / the first iterable of a comprehension is one consumption, not a repeated one
+            loops = [x for x in loops if not (isinstance(x, ast.For) and any(y is u for y in ast.walk(x.iter)))
+                     and not (not isinstance(x, (ast.For, ast.While)) and any(y is u for y in ast.walk(x.generators[0].iter)))]
+            if loops:
+                out.append((nm, u.lineno, "used inside a loop that starts after it was created (line %d)" % b.lineno))
+        for i, u in enumerate(uses):
+            for v in uses[i + 1:]:
+                cu, cv = chain(u), chain(v)
+                ids_v = {id(x): x for x in cv}
+                exclusive = False
+                for x in cu:
+                    if id(x) in ids_v and isinstance(x, ast.If):
+                        in_body_u = any(any(y is u for y in ast.walk(s_)) for s_ in x.body)
+                        in_body_v = any(any(y is v for y in ast.walk(s_)) for s_ in x.body)
+                        in_else_u = any(any(y is u for y in ast.walk(s_)) for s_ in x.orelse)
+                        in_else_v = any(any(y is v for y in ast.walk(s_)) for s_ in x.orelse)
+                        if (in_body_u and in_else_v) or (in_else_u and in_body_v):
+                            exclusive = True
+                        break
+                if not exclusive:
+                    out.append((nm, v.lineno, "consumed at line %d and again at line %d" % (u.lineno, v.lineno)))
+    return out
+
+
+def rule_one_shot_iterators(ck: Check, rule: str, files: Sequence[str]) -> None:
+    """premise of every value-level rule: an expression the rules read as a sequence is not a half-consumed iterator"""
+    gens = {fi.name for fi in ck.repo.all_functions()
+            if any(isinstance(n, (ast.Yield, ast.YieldFrom)) for n in ast.walk(fi.node))}
+    ctl = ast.parse("def f(xs):\n    g = (x for x in xs)\n    if xs:\n        print(list(g))\n    return sum(g)\n").body[0]
+    if len(one_shot_reuse(ctl, set())) != 1:
+        ck.unknown(rule, "positive control", "the one-shot iterator scan did not flag its control snippet")
+        return
+    n = bad = 0
+    for fi in ck.repo.all_functions():
+        if fi.module.path.replace(ck.repo.root + "/", "") not in files and not any(fi.module.path.endswith(f) for f in files):
+            continue
+        n += 1
+        for nm, line, why in one_shot_reuse(fi.node, gens):
+            bad += 1
+            ck.violated(rule, "%s: the one-shot iterator `%s` is consumed once" % (short(fi.qualname), nm),
+                        "%s — the second consumer gets nothing (a sum of 0, a loop that never runs, a check that never happens)" % why,
+                        "%s:%d" % (fi.module.path, line))
+    if not bad:
+        ck.ok(rule, "no generator / zip / map / filter object is consumed twice", "%d functions of the property's files scanned" % n, "")
+    ck.stats["one-shot scan functions"] = n
+
+
+def partial_on_empty(fn: ast.AST) -> List[Tuple[int, str]]:
+    """max(xs) / min(xs) / next(it) without a default, where nothing on the way establishes that xs is non-empty: they raise on an empty
+    argument. (line, text)"""
+    parents: Dict[int, ast.AST] = {}
+    for n in ast.walk(fn):
+        for c in ast.iter_child_nodes(n):
+            parents[id(c)] = n
+    out = []
+    for n in ast.walk(fn):
+        if not (isinstance(n, ast.Call) and isinstance(n.func, ast.Name) and n.func.id in ("max", "min", "next") and len(n.args) == 1
+                and not any(k.arg == "default" for k in n.keywords) and not isinstance(n.args[0], ast.Starred)):
+            continue
+        arg = n.args[0]
+        name = arg.id if isinstance(arg, ast.Name) else None
+        guarded = False
+        if isinstance(arg, (ast.List, ast.Tuple, ast.Set)) and arg.elts:
+            guarded = True          # a non-empty display
+        cur: Optional[ast.AST] = n
+        while cur is not None and cur is not fn and not guarded and name is not None:
+            par = parents.get(id(cur))
+            if isinstance(par, (ast.If, ast.IfExp, ast.While)):
+                in_body = cur in par.body if isinstance(par.body, list) else cur is par.body
+                t = par.test
+                if in_body and any(isinstance(x, ast.Name) and x.id == name for x in ast.walk(t)) and not isinstance(t, ast.UnaryOp):
+                    guarded = True
+            if isinstance(par, ast.BoolOp) and isinstance(par.op, ast.And) and cur is not par.values[0]:
+                if any(isinstance(x, ast.Name) and x.id == name for v in par.values[:par.values.index(cur)] for x in ast.walk(v)):
+                    guarded = True
+            cur = par
+        if not guarded and name is not None:
+            # an earlier `if not xs: return / raise / continue` in an enclosing block
+            cur = n
+            while cur is not None and cur is not fn and not guarded:
+                par = parents.get(id(cur))
+                for fld in ("body", "orelse", "finalbody"):
+                    lst = getattr(par, fld, None)
+                    if isinstance(lst, list) and cur in lst:
+                        for st in lst[:lst.index(cur)]:
+                            if isinstance(st, ast.If) and any(isinstance(x, ast.Name) and x.id == name for x in ast.walk(st.test)) \
+                                    and st.body and isinstance(st.body[-1], (ast.Return, ast.Raise, ast.Continue, ast.Break)):
+                                guarded = True
+                cur = par
+        if not guarded:
+            out.append((n.lineno, ast.unparse(n)[:80]))
+    return out
+
+
+def rule_no_partial_builtins(ck: Check, rule: str, prefixes: Sequence[str], what: str) -> None:
+    """accepting paths stay open (2): code that handles what honest peers send gets no operation that fails on an empty argument"""
+    ctl = ast.parse("def f(xs):\n    ys = [x for x in xs if x]\n    return max(ys)\n").body[0]
+    ctl_ok = ast.parse("def f(xs):\n    ys = [x for x in xs if x]\n    if not ys:\n        return 0\n    return max(ys)\n").body[0]
+    if len(partial_on_empty(ctl)) != 1 or partial_on_empty(ctl_ok):
+        ck.unknown(rule, "positive control", "the scan for max()/min()/next() of a possibly empty argument did not behave on its control snippets")
+        return
+    n = bad = 0
+    for fi in ck.repo.all_functions():
+        if not any(fi.qualname.startswith(p_) for p_ in prefixes):
+            continue
+        n += 1
+        for line, text in partial_on_empty(fi.node):
+            bad += 1
+            ck.violated(rule, "%s: %s has a non-empty argument" % (short(fi.qualname), text),
+                        "%s — it raises ValueError / StopIteration when the argument is empty, and nothing before it rules that out" % what,
+                        "%s:%d" % (fi.module.path, line))
+    if not bad:
+        ck.ok(rule, "no max() / min() / next() of a possibly empty argument in %d functions" % n, what, "")
 
 
 def worker_of(ck: Check, q: str) -> str:
